@@ -65,6 +65,17 @@ func NewPageNumberFinder(wc stringutil.WordCounter, timingInfo *data.TimingInfo,
 }
 
 func (pnf *PageNumberFinder) FindPagination(root *html.Node, pageURL *nurl.URL) (pagination data.PaginationInfo) {
+	// Numeric links with a "javascript:" href take part in the detection (they
+	// keep a group of page numbers adjacent), but they can never be the result.
+	defer func() {
+		if !isHTTPLink(pagination.PrevPage) {
+			pagination.PrevPage = ""
+		}
+		if !isHTTPLink(pagination.NextPage) {
+			pagination.NextPage = ""
+		}
+	}()
+
 	// Relative hrefs are resolved against the page URL as given, not against
 	// the copy below whose trailing slash is trimmed for the comparisons.
 	pnf.baseURL = pageURL
@@ -367,6 +378,10 @@ func (pnf *PageNumberFinder) addLinkIfValid(link *html.Node, pageURL *nurl.URL) 
 
 	pnf.adjacentNumberGroups.AddGroup()
 	return false
+}
+
+func isHTTPLink(link string) bool {
+	return strings.HasPrefix(link, "http://") || strings.HasPrefix(link, "https://")
 }
 
 func (pnf *PageNumberFinder) linkTextToNumber(linkText string) (int, error) {
